@@ -734,3 +734,456 @@ def followers(prog, sl, fns):
                         F[av[1]] = av[2]
                         changed = True
     return F
+
+
+# ====================================================================================================================
+# Deepening round: permission fixing (R4), SBOM path shape (R2/sbom-path), recreate decisions (R5)
+# ====================================================================================================================
+from .lib.value import canon as _canon, vstr as _vstr        # noqa: E402
+from .lib.discard import ok_on_success as _ok_on_success     # noqa: E402
+
+OWNER_RWX = 0o700
+FROM_MODE = 'std::os::unix::fs::PermissionsExt::from_mode'
+
+
+def _same_path(a, b):
+    return _canon(strip(a)) == _canon(strip(b))
+
+
+def _closure_of(fn, root):
+    return fn.path == root.path or fn.path.startswith(root.path + '::{closure')
+
+
+def _chmod_before(prog, sl, fn, bb, pv, E=None):
+    """a CHMOD of path value pv whose call block dominates block bb of fn (the Result of a call is only available in
+    its normal successor, so a dominating call block has returned): the Call or None.  A call to a workspace function
+    that CHMODs pv on every way to its success (`make_accessible(dir)?`) counts like the CHMOD itself."""
+    for c in fn.calls:
+        if c.indirect or c.bb == bb or not fn.dominates(c.bb, bb):
+            continue
+        ve = vocab_lookup(c)
+        if ve:
+            if ve[0] == 'CHMOD' and ve[1] is not None and ve[1] < len(c.args) and _same_path(sl.operand(fn, c.args[ve[1]]), pv):
+                return c
+            continue
+        if E is not None and c.name != fn.path and prog.callee_fns(c):
+            effs = []
+            E._expand_call(fn, c, None, 'must', {}, (), (fn.path,), effs)
+            if any(e.kind == 'CHMOD' and e.path is not None and _same_path(e.path, pv) for e in effs):
+                return c
+    return None
+
+
+def _implied_chmod(e, pv):
+    """the LIST runs inside a closure handed to a Result/Option combinator whose receiver is the (successful) CHMOD of
+    the same path: `set_permissions(p, m).and_then(|()| read_dir(p))`"""
+    for imp in e.implied or ():
+        for x in walk(imp):
+            if x[0] == 'call' and x[1] == 'std::fs::set_permissions' and x[2] and _same_path(x[2][0], pv):
+                return True
+    return False
+
+
+def chmod_before_list(prog, sl, E, lib, rep):
+    """R4: every directory is made accessible (CHMOD) before it is listed: a read-only / non-executable / unreadable
+    directory can otherwise not be emptied.  Decided per LIST effect in the function (or closure of the function) that
+    performs it: the CHMOD of the same path dominates it, or is the receiver of the combinator that runs it, or — for
+    a path the function received — dominates every call site of the function."""
+    callers = prog.callers()
+    libset = {f.path for f in lib}
+    n = 0
+    for f in lib:
+        if f.kind == 'Closure':
+            continue
+        for e in E.expand(f, 'may'):
+            if e.kind != 'LIST' or e.call is None or not _closure_of(e.call.fn, f):
+                continue
+            n += 1
+            g = e.call.fn
+            subj = 'chmod-before-list/%s' % f.path
+            local_pv = sl.operand(g, e.call.args[0])
+            c2 = _chmod_before(prog, sl, g, e.call.bb, local_pv, E)
+            if c2 is not None:
+                rep.holds('R4', subj, e.where(), 'the directory is made accessible (%s) before it is listed' % c2.where())
+                continue
+            if _implied_chmod(e, e.path) or _implied_chmod(e, local_pv):
+                rep.holds('R4', subj, e.where(), 'the listing runs only after the CHMOD of the same path succeeded (combinator receiver)')
+                continue
+            pvs = strip(e.path)
+            if g.path != f.path:
+                # a closure of f: a CHMOD in f that dominates the place where the closure is handed over
+                par = f
+                ok = None
+                for cs in par.calls:
+                    if any(x[0] == 'closure' and x[1] == g.path for a in cs.args for x in walk(sl.operand(par, a))):
+                        ok = _chmod_before(prog, sl, par, cs.bb, e.path, E)
+                        if ok is None:
+                            break
+                if ok is not None:
+                    rep.holds('R4', subj, e.where(), 'the directory is made accessible (%s) before the closure that lists it runs' % ok.where())
+                    continue
+            if pvs[0] == 'param' and pvs[1] == f.path:
+                sites = [cs for cs in callers.get(f.path, []) if not cs.indirect and cs.name == f.path and cs.fn.path in libset]
+                if not sites:
+                    rep.unproven('R4', subj, e.where(), 'no call site of %s found to discharge "made accessible before listed"' % f.path)
+                    continue
+                bad = [cs for cs in sites if _chmod_before(prog, sl, cs.fn, cs.bb, sl.operand(cs.fn, cs.args[pvs[2]]), E) is None]
+                rep.check(not bad, 'R4', subj, e.where(), 'every call site makes the directory accessible before handing it over',
+                          '%s lists the directory it received without making it accessible first, and so does its caller %s: an unreadable '
+                          'or read-only directory inside the layer cannot be emptied' % (f.path, bad[0].fn.path if bad else ''))
+                continue
+            rep.violated('R4', subj, e.where(), 'read_dir(%s) is not preceded by a CHMOD of the same directory: a directory without '
+                         'r/w/x for its owner (nested read-only, non-executable or unreadable directory) cannot be listed and emptied'
+                         % _vstr(e.path)[:100])
+    return n
+
+
+def chmod_modes(prog, sl, lib, rep):
+    """R4: the mode a directory is given before it is emptied lets its owner list (r), unlink in (w) and traverse (x) it"""
+    for f in lib:
+        for c in f.calls:
+            ve = vocab_lookup(c)
+            if not ve or ve[0] != 'CHMOD' or len(c.args) < 2:
+                continue
+            mv = sl.inline_deep(sl.operand(f, c.args[1]))
+            mv = sl.mk_unwrap(mv, 1) if mv[0] == 'unwrap' else mv
+            modes = [x[2][0][1] for x in walk(mv) if x[0] == 'call' and x[1].endswith('PermissionsExt::from_mode') and x[2]
+                     and x[2][0][0] == 'const' and isinstance(x[2][0][1], int)]
+            subj = 'chmod-mode/%s' % f.path
+            if not modes:
+                # `perms.set_mode(perms.mode() | 0o700)`: bits are only added
+                for k in f.calls:
+                    if not k.indirect and (k.decl or k.name or '').endswith('PermissionsExt::set_mode') and len(k.args) == 2:
+                        av = sl.operand(f, k.args[1])
+                        if av[0] == 'bin' and av[1] in ('BitOr', '|'):
+                            modes.extend(x[1] for x in av[2:4] if x[0] == 'const' and isinstance(x[1], int))
+            if not modes:
+                rep.unproven('R4', subj, c.where(), 'the mode given to the directory is not a constant unix mode: ' + _vstr(mv)[:120])
+                continue
+            bad = [m for m in modes if (m & OWNER_RWX) != OWNER_RWX]
+            rep.check(not bad, 'R4', subj, c.where(), 'mode %s gives the owner rwx' % ', '.join(oct(m) for m in modes),
+                      'mode %s does not give the owner r, w and x: the directory cannot be listed and emptied' % ', '.join(oct(m) for m in bad))
+
+
+REPLACING = ('::with_extension', '::with_file_name', '::set_extension', '::set_file_name', '::with_added_extension', '::add_extension')
+
+
+def sbom_path_shape(prog, sl, fnpath, rep):
+    """R2: the SBOM path constructor, which the path classes treat as "<layers>/<name>.sbom.<format suffix>", really is
+    that: join(base directory, <base name> ++ ".sbom." ++ suffix(format)) with one distinct, separator-free suffix per
+    format.  (A constructor that *replaces* an extension addresses another layer's file for dotted layer names; two formats
+    sharing a suffix leave one file behind.)"""
+    f = prog.fns.get(fnpath) if fnpath else None
+    subj = 'sbom-path/shape'
+    if f is None or f.argc != 3:
+        rep.unproven('R2', subj, '-', 'SBOM path constructor not found')
+        return
+    where = '%s:%d' % (f.file, f.line)
+    v = strip(sl.inline_deep(sl.local(f, 0)))
+    par = lambda x, i: strip(x)[0] == 'param' and strip(x)[1] == f.path and strip(x)[2] == i
+    for x in walk(v):
+        if x[0] == 'call' and x[1].endswith(REPLACING):
+            rep.violated('R2', subj, where, '%s replaces a part of the file name instead of appending to it: for a layer name that '
+                         'contains a dot the SBOM file of a different layer is addressed (%s)' % (x[1].rsplit('::', 1)[-1], _vstr(v)[:140]))
+            return
+    if not (v[0] == 'call' and v[1] in ('std::path::Path::join', 'std::path::PathBuf::join') and len(v[2]) == 2 and par(v[2][0], 1)):
+        rep.unproven('R2', subj, where, 'SBOM path is not join(<base directory>, <file name>): ' + _vstr(v)[:160])
+        return
+    name = strip(v[2][1])
+    if name[0] == 'concat':
+        # String::from(name) + push_str(..): the same pieces as a format string
+        from .lib.value import concat_parts
+        pieces = []
+        for x in concat_parts(name):
+            x = strip(x)
+            while x[0] == 'call' and len(x[2]) == 1 and x[1].rsplit('::', 1)[-1] in ('from', 'to_string', 'to_owned', 'into', 'as_str', 'as_ref', 'deref', 'borrow', 'clone'):
+                x = strip(x[2][0])
+            pieces.append(x[1] if x[0] == 'const' and isinstance(x[1], str) else x)
+        merged = []
+        for x in pieces:
+            if isinstance(x, str) and merged and isinstance(merged[-1], str):
+                merged[-1] += x
+            else:
+                merged.append(x)
+        name = ('fmt', tuple(merged))
+    if name[0] != 'fmt' or not name[1] or isinstance(name[1][0], str) or not par(name[1][0], 2):
+        rep.unproven('R2', subj, where, 'SBOM file name does not start with the (whole) base name: ' + _vstr(name)[:160])
+        return
+    rest = list(name[1][1:])
+    lits = [p for p in rest if isinstance(p, str)]
+    sels = [strip(p) for p in rest if not isinstance(p, str)]
+    if not rest or not isinstance(rest[0], str) or not rest[0].startswith('.sbom.'):
+        rep.violated('R2', subj, where, 'the SBOM file name is not "<name>.sbom.<suffix>": ' + _vstr(name)[:160])
+        return
+    if len(sels) != 1 or sels[0][0] != 'select' or not par(sels[0][1], 0):
+        rep.unproven('R2', subj, where, 'the format suffix is not a table over the format parameter: ' + _vstr(name)[:160])
+        return
+    adt = prog.adt(sels[0][2]) if sels[0][2] else None
+    allv = sorted(x['name'] for x in adt['variants']) if adt else []
+    table = {}
+    for names, val in sels[0][3]:
+        for nm in names:
+            table[nm] = val[1] if val[0] == 'const' and isinstance(val[1], str) else None
+    bad_sep = [s for s in lits + [s for s in table.values() if s] if '/' in s or '\\' in s]
+    ok = bool(allv) and sorted(table) == allv and all(table.values()) and len(set(table.values())) == len(table) and not bad_sep
+    rep.check(ok, 'R2', subj, where, 'SBOM path = <base directory>/<name>.sbom.<suffix>, one distinct suffix per format (%s)'
+              % ', '.join('%s=%s' % kv for kv in sorted(table.items())),
+              'SBOM suffix table is not one distinct, separator-free literal per format: %s (formats: %s)' % (sorted(table.items()), allv))
+
+
+# ---- R5: recreate decisions ---------------------------------------------------------------------------------------
+ENTRIES = (('cached_layer', r'^libcnb::build::BuildContext::<B>::cached_layer$'),
+           ('uncached_layer', r'^libcnb::build::BuildContext::<B>::uncached_layer$'),
+           ('handle_layer', r'^libcnb::build::BuildContext::<B>::handle_layer$'))
+# public decision enums of the two layer APIs: the variant that asks for the existing layer to be thrown away
+RECREATE = {'libcnb::layer::struct_api::RestoredLayerAction': 'DeleteLayer',
+            'libcnb::layer::struct_api::InvalidMetadataAction': 'DeleteLayer',
+            'libcnb::layer::trait_api::ExistingLayerStrategy': 'Recreate',
+            'libcnb::layer::trait_api::MetadataMigration': 'RecreateLayer'}
+
+
+def _decision_switches(fn, sl):
+    """[(switch block, subject key, enum, {variant name: target block})] for the switches of fn on a RECREATE enum"""
+    out = []
+    for sb, blk in enumerate(fn.blocks):
+        t = blk['t']
+        if t['t'] != 'switch':
+            continue
+        di = _discr_info(fn, sb, t['o'])
+        if not di and t.get('oty') == 'bool':
+            # `matches!(x, V)` / `x == V` lowered to a match producing a bool that is then tested: the same decision
+            val, neg = sl.operand(fn, t['o']), False
+            while val[0] == 'un' and val[1] == 'Not':
+                val, neg = val[2], not neg
+            if val[0] == 'select' and val[2] in RECREATE and all(rv[0] == 'const' and isinstance(rv[1], bool) for _, rv in val[3]):
+                f_t = [b for v, b in t['targets'] if v == 0]
+                t_t = [b for v, b in t['targets'] if v == 1]
+                false_tb = f_t[0] if f_t else t['else']
+                true_tb = t_t[0] if t_t else t['else']
+                edges = {}
+                for names, rv in val[3]:
+                    for nm in names:
+                        edges[nm] = true_tb if (rv[1] != neg) else false_tb
+                out.append((sb, _canon(val[1]), val[2], edges))
+            continue
+        if not di or di[2] not in RECREATE:
+            continue
+        place, vmap, enum = di
+        listed = [v for v, _ in t['targets']]
+        edges = {}
+        for v, tb in t['targets']:
+            edges[vmap.get(v, str(v))] = tb
+        for v, nm in vmap.items():
+            if v not in listed:
+                edges[nm] = t['else']
+        out.append((sb, _canon(sl.place(fn, place)), enum, edges))
+    return out
+
+
+def _cls_short(c):
+    """path class without the symbolic parts (for instance keys)"""
+    if c is None:
+        return 'OUTSIDE/UNKNOWN'
+    if c[0] == 'SUB':
+        return '%s/%s' % (_cls_short(c[1]), c[2] if isinstance(c[2], str) else '*')
+    if c[0] == 'CHILD':
+        return '%s/*' % _cls_short(c[1])
+    return c[0]
+
+
+def _reach_pruned(fn, start, stop, pruned):
+    """blocks reachable from start over normal edges, not continuing through `stop` blocks and not using `pruned` edges"""
+    seen = set()
+    work = [start]
+    while work:
+        b = work.pop()
+        if b in seen:
+            continue
+        seen.add(b)
+        if b in stop:
+            continue
+        for t in fn.succs(b):
+            if (b, t) not in pruned:
+                work.append(t)
+    return seen
+
+
+def recreate_decisions(prog, sl, E, EM, rep, mk_paths):
+    """R5: whenever one of the layer APIs decides to throw the existing layer away (callback / strategy result
+    DeleteLayer, Recreate, RecreateLayer), every way from that decision to a successful return runs a complete, checked
+    deletion of *this* layer: DIR (not by std's remove_dir_all), TOML and the SBOM file of every format.  Decided on the
+    CFG of the function that takes the decision, with the other switches on the same decision value held consistent,
+    and on the MUST effects of each call in the terms of the public entry point."""
+    all_variants = None
+    adt = prog.adt('libcnb_data::sbom::SbomFormat')
+    if adt:
+        all_variants = sorted(v['name'] for v in adt['variants'])
+    found = {}
+    for short, rx in ENTRIES:
+        fs = prog.find(rx)
+        if len(fs) != 1:
+            rep.unproven('R5', '%s/entry' % short, '-', 'public entry point %s not found' % rx)
+            continue
+        entry = fs[0]
+        is_ld = lambda v, ep=entry.path: v[0] == 'field' and v[2] == 'layers_dir' and strip(v[1])[0] == 'param' and strip(v[1])[1] == ep and strip(v[1])[2] == 0
+        is_ln = lambda v, ep=entry.path: v[0] == 'param' and v[1] == ep and v[2] == 1
+        LP = mk_paths(is_ld, is_ln)
+        deciders = [g for _, g in sorted(prog.reach([entry]).items()) if g.crate == 'libcnb' and _decision_switches(g, sl)]
+        seen_r2 = set()
+        for g in deciders:
+            rep.analysed(g)
+            sws = _decision_switches(g, sl)
+            if g.kind == 'Closure':
+                for sb, key, enum, edges in sws:
+                    rep.unproven('R5', '%s/%s::%s' % (short, enum.rsplit('::', 1)[-1], RECREATE[enum]), '%s:%d' % (g.file, g.line),
+                                 'the decision is taken inside a closure (%s): not analysed' % g.path)
+                continue
+            # contexts: parameter bindings of g in the entry's terms
+            if g.path == entry.path:
+                ctxs = [{}]
+            else:
+                EC = Effects(prog, sl, vocab={g.path: ('CTX', None)})
+                ctxs, seen = [], set()
+                for e in EC.expand(entry, 'may'):
+                    if e.kind != 'CTX' or e.call is None or e.call.name != g.path:
+                        continue
+                    m = {(g.path, i): a for i, a in enumerate(e.args or ()) if i < g.argc}
+                    k = tuple(sorted((i, _canon(a)) for (_, i), a in m.items()))
+                    if k not in seen:
+                        seen.add(k)
+                        ctxs.append(m)
+                if not ctxs:
+                    rep.unproven('R5', '%s/context' % short, '%s:%d' % (g.file, g.line), 'no call context of %s found from the entry point' % g.path)
+                    continue
+            success = {s.bb for s in EM.sites(g)}
+            for m in ctxs:
+                # what each call of g must have done when g goes on successfully
+                cls_bbs = {'DIR': set(), 'TOML': set(), 'SBOM': set()}
+                tree_only = set()
+                unk_bbs = set()
+                for k in g.calls:
+                    if k.indirect or not (prog.callee_fns(k) or vocab_lookup(k)):
+                        continue
+                    if not _ok_on_success(prog, g, k, success):
+                        continue
+                    effs = []
+                    EM._expand_call(g, k, None, 'must', m, (), (g.path,), effs)
+                    rem = [e for e in effs if e.kind in REMOVING]
+                    kinds = [(e.kind, LP.classify(e.path)) for e in rem]
+                    if any(c is None for kd, c in kinds):
+                        unk_bbs.add(k.bb)
+                    if any(c == ('DIR',) and kd != 'REMOVE_TREE' for kd, c in kinds):
+                        cls_bbs['DIR'].add(k.bb)
+                    elif any(c == ('DIR',) for kd, c in kinds):
+                        tree_only.add(k.bb)
+                    if any(kd == 'REMOVE_FILE' and c == ('TOML',) for kd, c in kinds):
+                        cls_bbs['TOML'].add(k.bb)
+                    from .lib.paths import sbom_formats_covered
+                    if all_variants and sorted(sbom_formats_covered([e for e in rem if e.kind == 'REMOVE_FILE'], LP.classify)) == all_variants:
+                        cls_bbs['SBOM'].add(k.bb)
+                # R2 on the executions that create or recreate the layer (every decision answers "throw it away"; keeping /
+                # updating an existing layer is not part of this property): every mutating effect stays inside the layer
+                not_recreate = set()
+                for sb, key, enum, edges in sws:
+                    keep = edges.get(RECREATE[enum])
+                    for t in g.succs(sb):
+                        if t != keep:
+                            not_recreate.add((sb, t))
+                region = _reach_pruned(g, 0, (), not_recreate)
+                from .lib.effects import MUTATING
+                from .lib.paths import cls_str
+                for k in g.calls:
+                    if k.bb not in region or k.indirect or not (prog.callee_fns(k) or vocab_lookup(k)):
+                        continue
+                    effs = []
+                    E._expand_call(g, k, E._unrollable(g, k), 'may', m, (), (g.path,), effs)
+                    for e in effs:
+                        if e.kind not in MUTATING:
+                            continue
+                        c = LP.classify(e.path)
+                        sk = 'recreate/%s/%s/%s@%s' % (short, e.call.fn.path.split('::')[-1], e.call.name, _cls_short(c))
+                        if (sk, LP.inside_layer(c)) in seen_r2:
+                            continue
+                        seen_r2.add((sk, LP.inside_layer(c)))
+                        rep.check(LP.inside_layer(c), 'R2', sk, e.where(),
+                                  '%s on %s' % (e.kind, cls_str(c)),
+                                  '%s while (re)creating the layer is on a path outside <layers>/<name>, <name>.toml and the SBOM files: %s'
+                                  % (e.kind, _vstr(e.path)[:140]))
+                for sb, key, enum, edges in sws:
+                    var = RECREATE[enum]
+                    if var not in edges:
+                        continue
+                    subj = '%s/%s::%s' % (short, enum.rsplit('::', 1)[-1], var)
+                    found.setdefault(enum, 0)
+                    found[enum] += 1
+                    # the other switches on the same decision value take the same variant
+                    pruned = set()
+                    for sb2, key2, enum2, edges2 in sws:
+                        if key2 == key and enum2 == enum:
+                            keep = edges2.get(var)
+                            for t in g.succs(sb2):
+                                if t != keep:
+                                    pruned.add((sb2, t))
+                    tb = edges[var]
+                    where = '%s:%d' % (g.file, g.blocks[sb]['t'].get('ln') or g.line)
+                    missing = []
+                    for cls in ('DIR', 'TOML', 'SBOM'):
+                        D = cls_bbs[cls]
+                        before = sb in _reach_pruned(g, 0, D, pruned)
+                        after = _reach_pruned(g, tb, D, pruned)
+                        if before and any(s in after and s not in D for s in success):
+                            missing.append(cls)
+                    if not missing:
+                        rep.holds('R5', subj, where, 'every successful continuation after the decision %s has removed DIR, TOML and the SBOM file '
+                                  'of every format of this layer (checked calls)' % var)
+                    elif unk_bbs & _reach_pruned(g, tb, (), pruned) and not (tree_only & _reach_pruned(g, tb, (), pruned)):
+                        rep.unproven('R5', subj, where, 'after the decision %s::%s, %s removes paths that could not be related to this layer '
+                                     '(<layers>/<name>, <name>.toml, SBOM files): a complete deletion (%s) is not established'
+                                     % (enum.rsplit('::', 1)[-1], var, g.path, ', '.join(missing)), {'function': g.path, 'missing': missing})
+                    else:
+                        note = ' (the directory is only removed by std::fs::remove_dir_all, which does not fix permissions)' if 'DIR' in missing and tree_only else ''
+                        rep.violated('R5', subj, where, 'after the decision %s::%s, %s can return successfully without a complete, checked deletion of '
+                                     'the layer: %s not removed on some path%s' % (enum.rsplit('::', 1)[-1], var, g.path, ', '.join(missing), note),
+                                     {'function': g.path, 'missing': missing})
+    for enum, var in sorted(RECREATE.items()):
+        if not found.get(enum):
+            rep.unproven('R5', 'decision/%s::%s' % (enum.rsplit('::', 1)[-1], var), '-',
+                         'no branch on %s::%s found below the public layer entry points: the rule lost its subject' % (enum, var))
+
+
+def uncached_always_deletes(prog, sl, rep):
+    """R5: `uncached_layer` never keeps what a previous build left behind: the decision callbacks it hands to the handler
+    are constants asking for deletion (one per decision enum of the struct API)"""
+    fs = prog.find(ENTRIES[1][1])
+    if len(fs) != 1:
+        rep.unproven('R5', 'uncached_layer/always-deletes', '-', 'uncached_layer not found')
+        return
+    f = fs[0]
+    where = '%s:%d' % (f.file, f.line)
+    seen = {}
+    for c in f.calls:
+        if c.indirect or not prog.callee_fns(c):
+            continue
+        for a in c.args:
+            v = strip(sl.operand(f, a))
+            if v[0] not in ('closure', 'fnitem'):
+                continue
+            g = prog.fns.get(v[1])
+            if g is None:
+                continue
+            enum = next((en for en in RECREATE if g.ret.startswith(en)), None)
+            if enum is None:
+                continue
+            rv = strip(sl.inline_deep(sl.local(g, 0)))
+            alts = rv[1] if rv[0] == 'phi' else [rv]
+            ok = all(x[0] == 'agg' and x[1] == enum and x[2] == RECREATE[enum] for x in (strip(y) for y in alts))
+            seen[enum] = seen.get(enum, True) and ok
+            if not ok:
+                rep.violated('R5', 'uncached_layer/always-deletes', c.where(), 'uncached_layer hands the handler a %s callback that does not always '
+                             'answer %s (%s): an existing layer is not thrown away' % (enum.rsplit('::', 1)[-1], RECREATE[enum], _vstr(rv)[:100]))
+    want = [en for en in RECREATE if '::struct_api::' in en]
+    missing = [en.rsplit('::', 1)[-1] for en in want if en not in seen]
+    if missing:
+        rep.unproven('R5', 'uncached_layer/always-deletes', where, 'no constant decision callback found for %s' % ', '.join(missing))
+    elif all(seen.values()):
+        rep.holds('R5', 'uncached_layer/always-deletes', where, 'both decision callbacks are the constant DeleteLayer')
